@@ -24,7 +24,8 @@ Record cplan := { dialfail : bool; reqs : list (wplan * rplan) }.
 Inductive trig := TNone | TPre | TLoaded | TWriteHeld | TSent | TReplyHeld | TDial.
 Inductive act := ANone | ACancel | AClose.
 Inductive sstep :=
-| SCall (t : trig) (a : act)   (* a call; at trigger point t the harness performs a *)
+| SCall (t : trig) (a : act)   (* a call, started once everything has settled; at trigger point t the harness performs a *)
+| SCallNow (t : trig) (a : act)(* a call started right after the previous step, whatever the goroutines are doing *)
 | SClose.                      (* Client.Close() between two calls *)
 
 Record scenario := { negotiate : bool; plans : list cplan; steps : list sstep }.
@@ -256,7 +257,7 @@ Definition rstep_script (sc : scenario) (r : run) : list run :=
   match u _ _ s, cl _ _ s with
   | UIdle, CIdle =>
     match r_steps r with
-    | SCall t a :: rest =>
+    | SCall t a :: rest | SCallNow t a :: rest =>
       let pre := match t, a with TPre, ACancel => true | _, _ => false end in
       [{| r_st := new_call _ _ (fun _ => false) (fun k => k) s pre; r_orph := r_orph r; r_steps := rest; r_neg := false;
           r_trig := match t with TPre => TNone | _ => t end; r_act := match t with TPre => ANone | _ => a end;
@@ -288,7 +289,10 @@ Definition rstep_script (sc : scenario) (r : run) : list run :=
 Definition rstep (sc : scenario) (r : run) : list run :=
   match rstep_busy sc r with
   | [] => rstep_script sc r
-  | l => l
+  | l => match r_steps r with
+         | SCallNow _ _ :: _ => l ++ rstep_script sc r
+         | _ => l
+         end
   end.
 
 (** * Outcomes *)
